@@ -15,8 +15,9 @@
  *   "s" (ASan, GC_DISABLE): part C only, for the exact-size heap buffers.
  *
  * Clause names carry the regime of the hash so that one known deviation cannot hide another:
- *   [e<n]   the hash integer is below n                   (no reduction needed)
- *   [e>=n]  the hash integer is >= n                      (standards: e mod n)
+ *   [hash-below-n]      the hash integer is in [1, n-1]       (no reduction needed)
+ *   [hash-not-below-n]  the hash integer is >= n              (standards: e mod n)
+ *   [hash-zero]         the hash integer is 0 (for the byte entry points: the integer the library imports)
  *   [sec1-bit-truncation]  SEC 1 4.1.3 step 5 keeps the leftmost ceil(log2 n) BITS of the hash; the library keeps bytes
  */
 #include "vh.h"
@@ -156,7 +157,7 @@ sign_one(tc_t *t, int algo, uint32_t d, uint32_t e, uint32_t k) {
 	bn_t bh, bd, bk, br, bs;
 	uint64_t rv, sv;
 	int rc, bad = 0;
-	const char *reg = (0 == e) ? "e=0" : ((e < t->n) ? "e<n" : "e>=n");
+	const char *reg = (0 == e) ? "hash-zero" : ((e < t->n) ? "hash-below-n" : "hash-not-below-n");
 	char cl[112];
 	call_t c;
 
@@ -253,7 +254,7 @@ static const char *T_VRF_O[2] = { "observed:ecdsa_verify(Q=O)/ecdsa", "observed:
 static void
 decide(tc_t *t, int std, int rc, uint32_t e, uint32_t r, uint32_t s) {
 	char cl[112];
-	const char *reg = (0 == e) ? "e=0" : ((e < t->n) ? "e<n" : "e>=n");
+	const char *reg = (0 == e) ? "hash-zero" : ((e < t->n) ? "hash-below-n" : "hash-not-below-n");
 	int lib = (0 == rc);
 
 	if (RC_CRASH == rc)
@@ -388,7 +389,7 @@ static const char *T_VRFB[2][2] = { { "ecdsa_verify_be/ecdsa", "ecdsa_verify_be/
 static const char *T_VRFPB[2][2] = { { "ecdsa_verify_priv_key_be/ecdsa", "ecdsa_verify_priv_key_be/gost" }, { "ecdsa_verify_priv_key_le/ecdsa", "ecdsa_verify_priv_key_le/gost" } };
 
 enum { REG_LT, REG_GE, REG_BITS, REG_UNSPEC };
-static const char *reg_names[5] = { "e<n", "e>=n", "sec1-bit-truncation", "unspecified", "e=0" };
+static const char *reg_names[5] = { "hash-below-n", "hash-not-below-n", "sec1-bit-truncation", "unspecified", "hash-zero" };
 /* clause suffix: a hash that the library imports as the integer zero is its own regime (unless the standard reads other bits) */
 static uint64_t std_e_lib;
 #define reg_name_of(reg, e) ((REG_BITS != (reg) && 0 == std_e_lib) ? reg_names[4] : reg_names[reg])
